@@ -185,6 +185,36 @@ def h_step_getkeys(ctx):
             ("no plaintext leaves in either case", all(m.getChild("proto") is None for m in msgs))]
 
 
+def h_step_identity_notification(ctx):
+    """the server announces that a contact's identity changed: the library fetches the contact's keys; the fetched bundle must go through
+    the same trust decision (auto-trust option as configured, never forced): a changed key is not accepted silently on this route either"""
+    from yowsup.axolotl import exceptions as yex
+    st, bottom, app, mgr = ST.build(enc=True, sessions=True, **ST.FLAG_SETS["all"])
+    autotrust = ctx.flag("autotrust")
+    from yowsup.layers.axolotl.props import PROP_IDENTITY_AUTOTRUST
+    st.setProp(PROP_IDENTITY_AUTOTRUST, autotrust)
+    seen = []
+
+    def create_session(rid, bundle, autotrust=False):
+        seen.append((rid, autotrust))
+        if not autotrust:
+            raise yex.UntrustedIdentityException(rid, None)       # the bundle carries a key different from the pinned one
+    mgr.create_session = create_session
+    from checks import c09, c09_templates as T
+    N = SC.N()
+    bottom.inject(N("notification", {"id": "n7", "from": T.J, "type": "encrypt", "t": "1400000000"}, [N("identity")]))
+    iqs = [n for n in bottom.down if n.tag == "iq"]
+    obs = [("the notification is acknowledged and the contact's keys are requested", len([n for n in bottom.down if n.tag == "ack"]) == 1 and len(iqs) == 1)]
+    if len(iqs) != 1:
+        return obs
+    found, _ = c09.discover()
+    fx = [c09._load_fixture(m, c)[1] for m, c, _l, _d in found if c == "ResultGetKeysIqProtocolEntityTest"][0]
+    user = fx.getChild("list").children[0]
+    bottom.inject(N("iq", {"id": hooks.dict_get(iqs[0].attributes, "id"), "type": "result", "from": "s.whatsapp.net"}, [N("list", {}, [N("user", {"jid": T.J}, list(user.children))])]))
+    obs.append(("the fetched bundle is submitted with the configured auto-trust option, not a forced one (%s)" % seen, seen == [(T.J.split("@")[0], autotrust)]))
+    return obs
+
+
 @ST.deterministic("c17-h_step_receive")
 def h_step_receive(ctx):
     """AxolotlReceivelayer.handleEncMessage when the manager reports an untrusted identity: ignored unless the application
@@ -245,6 +275,7 @@ def cases(tier):
         cs.append(dict(name="history[first=%s,len<=%d]" % (first, n), fn=_with_first(first), args=(n,), max_paths=400000, timeout_s=900 if tier == "quick" else 3400, keep_samples=8, weight=100))
     cs.append(dict(name="step[getKeysFor]", fn=h_step_getkeys))
     cs.append(dict(name="step[handleEncMessage]", fn=h_step_receive))
+    cs.append(dict(name="step[identity-change notification]", fn=h_step_identity_notification))
     return cs + extra
 
 
